@@ -297,6 +297,14 @@ class C01(Hist1Prop):
         ws = wide_weights(rng, places, kind, profile, len(fp))
         op = {"op": "construct", "out": 0, "binning": b, "data": vals, "weights": [rs(w) for w in ws],
               "wkind": "float64" if kind == "float" else "int64"}
+        narrow = None
+        if kind == "int" and rng.random() < 0.5:
+            # weights that fit a NARROW integer type whose squares do not, with a WIDER histogram type asked for explicitly:
+            # sums and squares are to be taken in the histogram's type (the class of fix: a289f62)
+            narrow, top = rng.choice([("int16", 300), ("int16", 30000), ("int32", 70000), ("int32", 2000000)])   # (types the Lean driver knows)
+            ws = [rng.randint(max(1, top // 3), top) for _ in vals]
+            op["weights"] = [rs(w) for w in ws]
+            op["wkind"] = narrow
         if rng.random() < 0.15:
             op["container"] = "list"
         op["keep"] = rng.random() < 0.85
@@ -304,8 +312,11 @@ class C01(Hist1Prop):
         # (int_any: squared weights beyond 2^53 are exact in an int64 histogram only)
         op["dtype"] = rng.choice({"float": [None, None, None, "float64"], "int": [None, None, None, "int64", "float64"],
                                   "int_any": [None, None, "int64"]}[kind])
+        if narrow:
+            op["dtype"] = rng.choice(["int64", "int64", "float64"])
         return {"kind": "hist1", "ops": [op],
-                "tags": tags + ["stream:wide_weights", f"wide:{kind}", f"wide_profile:{profile}", f"wide_order:{order}"]}
+                "tags": tags + ["stream:wide_weights", f"wide:{kind}", f"wide_profile:{profile}", f"wide_order:{order}"]
+                        + ([f"wide:narrow_weights:{narrow}"] if narrow else [])}
 
     # ---- memory layouts of the data and of the weights
     def _stream_bins(self, rng, tags):
